@@ -388,6 +388,14 @@ def body_history(case, ctx):
                 arr += 50.0
         snaps = [snapshot(x_in), snapshot(y_in), snapshot(err_in)]
         ctx.event("caller re-used its data arrays after construction")
+        # ... and its bounds container (an array or lists filled with the search box of the next problem)
+        if isinstance(bounds, np.ndarray) and bounds.dtype.kind == "f":
+            bounds += 100.0
+            bounds_snap = snapshot(bounds)
+        elif isinstance(bounds, list) and bounds and isinstance(bounds[0], list):
+            for b in bounds:
+                b[0], b[1] = b[0] + 100.0, b[1] + 100.0
+            bounds_snap = ("obj", repr(bounds))
     last = None
     n_add = n_prop = 0
     for op in case["ops"]:
@@ -424,6 +432,17 @@ def body_history(case, ctx):
                     new_y = np.array(yv) if form == "2d" else yv
                     new_err = (np.array([0.05]) if form != "scalar" else 0.05) if case["with_err"] else None
                     sx, sy, se = snapshot(new_x), snapshot(new_y), snapshot(new_err)
+                    if op.get("first_without_err") and not case["with_err"]:
+                        # an evaluation whose objective failed (NaN) is refused by the re-fit - and must leave the optimiser as it was
+                        try:
+                            opt.add_evaluation(new_x, np.array(float("nan")) if form == "2d" else float("nan"))
+                        except (ValueError, np.linalg.LinAlgError):
+                            ctx.event("refused NaN evaluation, then a proper one")
+                            if np.asarray(opt.x).shape[0] != len(model_x) or np.asarray(opt.y).shape[0] != len(model_y) or not np.all(np.isfinite(np.asarray(opt.y, dtype=float))):
+                                raise Violation("rejected-add-changed-state", f"after add_evaluation raised for a NaN value the optimiser holds {np.asarray(opt.x).shape[0]} x / "
+                                                                              f"{np.asarray(opt.y).shape[0]} y (finite: {bool(np.all(np.isfinite(np.asarray(opt.y, dtype=float))))}) for {len(model_y)} evaluations")
+                        else:
+                            raise Inconclusive("a NaN evaluation was accepted")
                     if case["with_err"] and op.get("first_without_err"):
                         try:
                             opt.add_evaluation(new_x, new_y)
